@@ -590,6 +590,91 @@ func c13R2(r *Report) {
 		r.Check(okp, "R2", "MetadataComplete/pieces[i*20:(i+1)*20]", sl.Pos(), "hash-table slice in bounds ("+l+")", "the slice of the hash table is not implied in-bounds by the loop bound")
 	})
 	r.Sentinel("R2.slices", n, 1)
+	// the running sum of file lengths (64-bit, every term chosen by the author of the metainfo) does not wrap: the
+	// accumulation is preceded by a rejecting test of the sum against one of its operands (sum < length), or of one
+	// operand against MaxInt64 minus the other
+	{
+		flen := fieldLoadOf("BFile", "Length")
+		gs := append(rejectingGuards(p, mc), validatorGuards(p, mc, 0)...)
+		nAcc := 0
+		for _, f := range localCallees(p, mc, []string{"tor"}) {
+			if f != mc {
+				isVal := false
+				for _, g := range gs {
+					if g.in == f {
+						isVal = true
+					}
+				}
+				if !isVal {
+					continue
+				}
+			}
+			allInstrs(f, func(in ssa.Instruction) {
+				acc, ok := in.(*ssa.BinOp)
+				if !ok || acc.Op != token.ADD || !(mentions(acc.Y, flen, 0) || mentions(acc.X, flen, 0)) {
+					return
+				}
+				// the accumulation itself: its result flows back into one of its operands through a loop phi
+				loops := false
+				for _, op := range []ssa.Value{acc.X, acc.Y} {
+					if ph, isPhi := op.(*ssa.Phi); isPhi {
+						for _, e := range ph.Edges {
+							if e == ssa.Value(acc) {
+								loops = true
+							}
+						}
+					}
+				}
+				if !loops {
+					return
+				}
+				nAcc++
+				guarded := false
+				for _, g := range gs {
+					if g.in != f || !guardPassesBefore(g, acc) {
+						continue
+					}
+					c, _ := g.cond()
+					bo, ok := c.(*ssa.BinOp)
+					if !ok {
+						continue
+					}
+					switch bo.Op {
+					case token.LSS, token.GTR, token.LEQ, token.GEQ:
+					default:
+						continue
+					}
+					sameSum := func(v ssa.Value) bool {
+						s2, ok := v.(*ssa.BinOp)
+						if !ok || s2.Op != token.ADD {
+							return false
+						}
+						tt := &Taint{stores: map[*ssa.Function]map[*types.Var]bool{}}
+						eq := func(a, b ssa.Value) bool { return a == b || tt.sameLoadVal(a, b) }
+						return (eq(s2.X, acc.X) && eq(s2.Y, acc.Y)) || (eq(s2.X, acc.Y) && eq(s2.Y, acc.X))
+					}
+					isOperand := func(v ssa.Value) bool {
+						tt := &Taint{stores: map[*ssa.Function]map[*types.Var]bool{}}
+						return v == acc.X || v == acc.Y || tt.sameLoadVal(v, acc.X) || tt.sameLoadVal(v, acc.Y)
+					}
+					maxMinus := func(v ssa.Value) bool {
+						s2, ok := v.(*ssa.BinOp)
+						if !ok || s2.Op != token.SUB {
+							return false
+						}
+						k, okk := constInt(s2.X)
+						return okk && k == 1<<63-1 && isOperand(s2.Y)
+					}
+					if (sameSum(bo.X) && isOperand(bo.Y)) || (sameSum(bo.Y) && isOperand(bo.X)) || (isOperand(bo.X) && maxMinus(bo.Y)) || (isOperand(bo.Y) && maxMinus(bo.X)) {
+						guarded = true
+					}
+				}
+				r.Check(guarded, "R2", "MetadataComplete/file-length-sum-no-overflow", acc.Pos(), "the running sum of file lengths is checked for wrap-around before it is used",
+					"the running sum of file lengths is not checked for overflow: files of 2^63-1, 2^63-1 and 3 bytes sum to a total length of 1 with a file at offset -2, and the torrent is accepted (files neither contiguous nor summing to the total)")
+			})
+		}
+		r.Sentinel("R2.sum", nAcc, 1)
+	}
 	// make([]uint8, chunks) dominated by the fits-check (G8 is checked in R1): the size is non-negative
 	allInstrs(mc, func(in ssa.Instruction) {
 		ms, ok := in.(*ssa.MakeSlice)
